@@ -20,7 +20,7 @@ from scen import ScenUnit, guarded, Abandon
 import asmlift, asmword
 import units as U
 import bvspec
-from jast import REPO
+from jast import REPO, ExtractionError
 
 P = ["C03", "C02"]
 PRE = "embedded_pairing_core_arch_x86_64_"
@@ -193,6 +193,102 @@ def _replay(rec, unit, result, fresh, tu, wd, cx):
     return False
 
 
+NATIVE_DRIVER = r"""
+#include <stdio.h>
+#include <stdint.h>
+#include <string.h>
+#include <stdlib.h>
+typedef unsigned __int128 u128;
+extern "C" {
+void embedded_pairing_core_arch_x86_64_bigint_768_multiply(void*, const void*, const void*);
+void embedded_pairing_core_arch_x86_64_bmi2_adx_bigint_768_multiply(void*, const void*, const void*);
+void embedded_pairing_core_arch_x86_64_bigint_768_square(void*, const void*);
+void embedded_pairing_core_arch_x86_64_bmi2_adx_bigint_768_square(void*, const void*);
+void embedded_pairing_core_arch_x86_64_fpbase_384_montgomery_reduce(void*, void*, const void*, uint64_t);
+void embedded_pairing_core_arch_x86_64_bmi2_adx_fpbase_384_montgomery_reduce(void*, void*, const void*, uint64_t);
+bool embedded_pairing_core_arch_x86_64_cpu_supports_bmi2_adx(void);
+}
+static const uint64_t P[6] = {@P@};
+static const uint64_t INV = @INV@ULL;
+static void ref_mul(uint64_t* r, const uint64_t* a, const uint64_t* b) {
+    memset(r, 0, 96);
+    for (int i = 0; i < 6; i++) { uint64_t c = 0; for (int j = 0; j < 6; j++) { u128 t = (u128)a[i] * b[j] + r[i + j] + c; r[i + j] = (uint64_t)t; c = (uint64_t)(t >> 64); } r[i + 6] = c; }
+}
+static int geq(const uint64_t* a, const uint64_t* b, int n) { for (int i = n - 1; i >= 0; i--) { if (a[i] != b[i]) return a[i] > b[i]; } return 1; }
+static void ref_mont(uint64_t* res, const uint64_t* t0) {
+    uint64_t t[13]; memcpy(t, t0, 96); t[12] = 0;
+    for (int i = 0; i < 6; i++) {
+        uint64_t u = t[i] * INV, c = 0;
+        for (int j = 0; j < 6; j++) { u128 x = (u128)u * P[j] + t[i + j] + c; t[i + j] = (uint64_t)x; c = (uint64_t)(x >> 64); }
+        for (int k = i + 6; k < 13 && c; k++) { u128 x = (u128)t[k] + c; t[k] = (uint64_t)x; c = (uint64_t)(x >> 64); }
+    }
+    uint64_t* T = t + 6;                      /* T < 2p, t[12] == 0 for inputs below p*R */
+    if (t[12] || geq(T, P, 6)) { uint64_t bw = 0; for (int i = 0; i < 6; i++) { u128 d = (u128)T[i] - P[i] - bw; res[i] = (uint64_t)d; bw = (uint64_t)(d >> 64) & 1; } }
+    else memcpy(res, T, 48);
+}
+static uint64_t s = 88172645463325252ULL;
+static uint64_t rnd() { s ^= s << 13; s ^= s >> 7; s ^= s << 17; return s; }
+static const uint64_t PAT[6] = {0, 1, ~0ULL, 0x8000000000000000ULL, 0x7fffffffffffffffULL, 0xffffffff00000000ULL};
+static void fill(uint64_t* a, int n, long k) { for (int i = 0; i < n; i++) a[i] = (k & 1) ? rnd() : ((rnd() % 3) ? PAT[rnd() % 6] : rnd()); }
+int main(int argc, char** argv) {
+    long N = atol(argv[1]);
+    int bmi = embedded_pairing_core_arch_x86_64_cpu_supports_bmi2_adx();
+    long bad[6] = {0, 0, 0, 0, 0, 0};
+    alignas(16) uint64_t a[6], b[6], r[12], e[12], t[12], q[6], f[6];
+    for (long k = 0; k < N; k++) {
+        fill(a, 6, k); fill(b, 6, k);
+        ref_mul(e, a, b);
+        embedded_pairing_core_arch_x86_64_bigint_768_multiply(r, a, b); if (memcmp(r, e, 96)) bad[0]++;
+        if (bmi) { embedded_pairing_core_arch_x86_64_bmi2_adx_bigint_768_multiply(r, a, b); if (memcmp(r, e, 96)) bad[1]++; }
+        ref_mul(e, a, a);
+        embedded_pairing_core_arch_x86_64_bigint_768_square(r, a); if (memcmp(r, e, 96)) bad[2]++;
+        if (bmi) { embedded_pairing_core_arch_x86_64_bmi2_adx_bigint_768_square(r, a); if (memcmp(r, e, 96)) bad[3]++; }
+        /* reduction input below p * 2^384: the product of two values below p */
+        a[5] %= P[5]; b[5] %= P[5];
+        ref_mul(t, a, b);
+        ref_mont(f, t);
+        memcpy(e, t, 96); embedded_pairing_core_arch_x86_64_fpbase_384_montgomery_reduce(q, e, P, INV); if (memcmp(q, f, 48)) bad[4]++;
+        if (bmi) { memcpy(e, t, 96); embedded_pairing_core_arch_x86_64_bmi2_adx_fpbase_384_montgomery_reduce(q, e, P, INV); if (memcmp(q, f, 48)) bad[5]++; }
+    }
+    printf("bmi %d\ncases %ld\n", bmi, N);
+    for (int i = 0; i < 6; i++) printf("bad%d %ld\n", i, bad[i]);
+    return 0;
+}
+"""
+
+
+def gen_native_differential(tu, n=2000000):
+    """BOUNDED: the real assembled routines of both variants against a schoolbook reference written with unsigned __int128"""
+    def run(path):
+        import subprocess, tempfile, shutil
+        wd = tempfile.mkdtemp(prefix="jpv.nd.")
+        try:
+            inv = (-pow(Q, -1, 1 << 64)) % (1 << 64)
+            src = NATIVE_DRIVER.replace("@P@", ", ".join("%dULL" % ((Q >> (64 * i)) & ((1 << 64) - 1)) for i in range(6))).replace("@INV@", str(inv))
+            open(os.path.join(wd, "d.cpp"), "w").write(src)
+            objs = []
+            for sf in ("multiply.s", "multiply_bmi2_adx.s"):
+                o = os.path.join(wd, sf + ".o")
+                r = subprocess.run(["as", os.path.join(REPO, SDIR, sf), "-o", o], capture_output=True, text=True)
+                if r.returncode:
+                    raise ExtractionError("assembler failed on %s: %s" % (sf, r.stderr[-300:]))
+                objs.append(o)
+            r = subprocess.run(["g++", "-O2", "-w", os.path.join(wd, "d.cpp")] + objs + ["-o", os.path.join(wd, "d")], capture_output=True, text=True)
+            if r.returncode:
+                raise ExtractionError("native driver does not compile: " + r.stderr[-600:])
+            out = subprocess.run([os.path.join(wd, "d"), str(n)], capture_output=True, text=True, timeout=1800).stdout
+            vals = dict(l.split() for l in out.splitlines() if l.strip())
+            names = ["bigint_768_multiply", "bmi2_adx_bigint_768_multiply", "bigint_768_square", "bmi2_adx_bigint_768_square", "fpbase_384_montgomery_reduce", "bmi2_adx_fpbase_384_montgomery_reduce"]
+            obs = []
+            for i, nm in enumerate(names):
+                ran = vals.get("bmi") == "1" or "bmi2" not in nm
+                obs.append(("native %s == schoolbook reference on %s pseudo-random / pattern operands%s" % (nm, vals.get("cases"), "" if ran else " (NOT RUN: this CPU lacks BMI2/ADX)"), "ok" if vals.get("bad%d" % i) == "0" else "fail", "%s mismatches" % vals.get("bad%d" % i), None))
+            return obs
+        finally:
+            shutil.rmtree(wd, ignore_errors=True)
+    yield "native differential", guarded(run)
+
+
 ROUTINES = [("multiply.s", "bigint_768_multiply", "mul"), ("multiply.s", "bigint_768_square", "sq"), ("multiply.s", "fpbase_384_montgomery_reduce", "mont"),
             ("multiply_bmi2_adx.s", "bmi2_adx_bigint_768_multiply", "mul"), ("multiply_bmi2_adx.s", "bmi2_adx_bigint_768_square", "sq"),
             ("multiply_bmi2_adx.s", "bmi2_adx_fpbase_384_montgomery_reduce", "mont")]
@@ -211,4 +307,9 @@ def units():
         u.back_end = "WORD(asm)"
         u.replay_hook = _replay
         us.append(u)
+    nd = ScenUnit("x86-64 768-bit routines, both variants: native differential run against a schoolbook __int128 reference (2*10^6 operands per routine)", ["C03"], gen_native_differential,
+                  tier="thorough", kind="bounded", bound="2*10^6 pseudo-random and pattern operands per routine (xorshift, fixed seed)", targets=[],
+                  note="bounded evidence only: the proof is the word-level units; this run exercises the REAL assembled code on the host CPU")
+    nd.back_end = "NATIVE"
+    us.append(nd)
     return us
